@@ -205,6 +205,15 @@ pub fn random_json(t: &mut Tape, depth: usize) -> Value {
             _ => json!(i64::MIN),
         },
         3 => {
+            if t.chance(1, 3) {
+                // generated text: marker-like prefixes and characters of 1..4 bytes at every small offset
+                const PIECES: [&str; 14] = ["0", "x", "0x", "0X", "a", "f", "#", "1", "é", "€", "日", "😀", "-", "="];
+                let mut s = String::new();
+                for _ in 0..1 + t.pick(6) {
+                    s.push_str(PIECES[t.pick(PIECES.len())]);
+                }
+                return json!(s);
+            }
             let pool = ["", "0x", "0xzz", "abc", "00", "true", "12", "-1", "#", "aa#1", "addr1", "é", "v1beta0", "hex", "base64", "////", "0x0x00", "340282366920938463463374607431768211456"];
             json!(pool[t.pick(pool.len())])
         }
@@ -221,6 +230,48 @@ pub fn random_json(t: &mut Tape, depth: usize) -> Value {
             }
             Value::Object(m)
         }
+    }
+}
+
+/// Integer literals as they arrive on the wire: the JSON *text* of a bare number is parsed (as a client's request
+/// body is) and coerced to Int. Whatever comes back must be the integer that was written - or an error: a literal
+/// the JSON layer can only hold approximately must not turn into a neighbouring integer.
+pub fn check_number_literal(tape: &[u16], rc: &mut RCase) -> Result<(), Failure> {
+    use num_bigint::BigInt;
+    let mut t = Tape::new(tape);
+    let two = |n: u32| BigInt::from(1u8) << n;
+    let base = [two(53), two(63), two(64), two(100), two(127), two(128), BigInt::from(10u8).pow(20), BigInt::from(10u8).pow(40), BigInt::from(0)][t.pick(9)].clone();
+    let delta = BigInt::from(t.pick(2001) as i64 - 1000);
+    let mut n = base + delta;
+    if t.flag() {
+        n = -n;
+    }
+    let text = match t.pick(4) {
+        0 => format!("{}.0", n),
+        1 => format!("{}e0", n),
+        _ => n.to_string(),
+    };
+    let rendered = || json!({"number_literal": text});
+    let Ok(j) = serde_json::from_str::<Value>(&text) else {
+        rc.label("number_literal:not_json");
+        return Ok(());
+    };
+    match guard(|| from_json(j.clone(), &Type::Int)) {
+        Err(p) => Err(Failure::new(format!("panic:{}", p.sig()), p.message, rendered())),
+        Ok(Err(_)) => {
+            rc.label("number_literal:refused");
+            rc.record(hash64(&text), true, rendered);
+            Ok(())
+        }
+        Ok(Ok(ArgValue::Int(v))) => {
+            if BigInt::from(v) != n {
+                return Err(Failure::new("number_literal_altered", format!("the literal {} was handed over as {}", text, v), rendered()));
+            }
+            rc.label("number_literal:exact");
+            rc.record(hash64(&text), n.bits() > 53, rendered);
+            Ok(())
+        }
+        Ok(Ok(other)) => Err(Failure::new("number_literal_wrong_kind", format!("{:?}", other), rendered())),
     }
 }
 
@@ -513,7 +564,7 @@ pub fn check_request(tape: &[u16], rc: &mut RCase) -> Result<(), Failure> {
 pub fn run(tier: Tier, seed: u64) -> Report {
     let mut r = Report::new("C16", tier, seed);
     r.rule = "(type, value, encoding) triples for Int/Bool/Bytes/Address/UtxoRef in every documented encoding, \
-              boundary-heavy; ill-formed encodings that must be rejected; arbitrary JSON x every Type for totality; \
+              boundary-heavy; ill-formed encodings that must be rejected; integer literals parsed from JSON text around 2^53, 2^63, 2^64, 2^127, 10^20.. (exact or refused); arbitrary JSON x every Type for totality; \
               resolve requests: random JSON, well-formed requests with parameters (declared in several spellings) split between args and env, under both, or ill-formed under args, plus \
               undeclared extras, and requests whose envelope content/encoding/version is corrupted. distinct = hash of the \
               JSON; non-trivial = value at a representation boundary, parameters split over both maps, or a corrupted envelope"
@@ -524,6 +575,7 @@ pub fn run(tier: Tier, seed: u64) -> Report {
     ];
     r.explore("roundtrip", tier.pick(150_000, 3_000_000), 40, &|t, rc| check_roundtrip(t, rc));
     r.explore("ill_formed", tier.pick(5_000, 50_000), 8, &|t, rc| check_ill_formed(t, rc));
+    r.explore("number_literals", tier.pick(10_000, 300_000), 8, &|t, rc| check_number_literal(t, rc));
     r.explore("totality", tier.pick(50_000, 1_000_000), 60, &|t, rc| check_totality(t, rc));
     r.explore("requests", tier.pick(40_000, 1_000_000), 120, &|t, rc| check_request(t, rc));
     r
@@ -534,6 +586,7 @@ pub fn replay(phase: &str, tape: &[u16], seed: u64) -> Report {
     r.strict = true;
     match phase {
         "ill_formed" => r.explore_list(phase, &[tape.to_vec()], &|t, rc| check_ill_formed(t, rc)),
+        "number_literals" => r.explore_list(phase, &[tape.to_vec()], &|t, rc| check_number_literal(t, rc)),
         "totality" => r.explore_list(phase, &[tape.to_vec()], &|t, rc| check_totality(t, rc)),
         "requests" => r.explore_list(phase, &[tape.to_vec()], &|t, rc| check_request(t, rc)),
         _ => r.explore_list(phase, &[tape.to_vec()], &|t, rc| check_roundtrip(t, rc)),
